@@ -34,6 +34,7 @@ func runC04(c *core.Ctx) {
 	ruleObjStmLookup(c)
 	ruleTrimOneEOL(c)
 	rulePrevChainFollowed(c)
+	ruleXRefTableEntryEOL(c)
 }
 
 func ruleFirstEntryWins(c *core.Ctx) {
@@ -1843,6 +1844,88 @@ func rulePrevChainFollowed(c *core.Ctx) {
 		}
 		if bad {
 			o.Fail("%s: an iteration of the byte loop can complete with the flag %s neither cleared nor known to be clear: an LF later in the string is swallowed", c.Prog.Pos(fn.Decl.Pos()), flag.Name())
+		}
+	})
+}
+
+// ruleXRefTableEntryEOL (C04-R10): a cross-reference table entry is 20 bytes
+// long and ends in one of SP CR, SP LF or CR LF (ISO 32000-2 7.5.4).  The
+// reader advances by 20 bytes when the 20th byte is an end-of-line byte and
+// falls back to 19 for the malformed one-byte form; both LF and CR must count
+// as the 20th byte, or the next entry of a conforming SP CR file is read
+// starting at its CR.
+func ruleXRefTableEntryEOL(c *core.Ctx) {
+	c.Check("C04-R10", "pdf.decodeXRefSection/entry-eol", "an xref table entry is taken as 20 bytes long when its last byte is LF or CR", func(o *core.Ob) {
+		fn := c.Prog.Func("pdf", "decodeXRefSection")
+		g := fn.Graph()
+		info := fn.Info()
+		is19 := func(e ast.Expr) bool {
+			ix, ok := ast.Unparen(e).(*ast.IndexExpr)
+			if !ok {
+				return false
+			}
+			k, isK := core.IntConst(info, ix.Index)
+			return isK && k == 19
+		}
+		// the vertices that advance the position by 20 and by 19
+		var adv20, adv19 []*core.V
+		for _, v := range g.Vs {
+			as, ok := v.AST.(*ast.AssignStmt)
+			if !ok || as.Tok != token.ADD_ASSIGN || len(as.Rhs) != 1 {
+				continue
+			}
+			if k, ok := core.IntConst(info, as.Rhs[0]); ok && k == 20 {
+				adv20 = append(adv20, v)
+			} else if ok && k == 19 {
+				adv19 = append(adv19, v)
+			}
+		}
+		var start *core.V
+		for _, bv := range g.BranchVertices() {
+			if bv.Cond.Expr == nil {
+				continue
+			}
+			found := false
+			ast.Inspect(bv.Cond.Expr, func(m ast.Node) bool {
+				if e, ok := m.(ast.Expr); ok && is19(e) {
+					found = true
+				}
+				return true
+			})
+			if found && (start == nil || bv.Cond.Expr.Pos() < start.Cond.Expr.Pos()) {
+				start = bv
+			}
+		}
+		if !o.Shape(start != nil && len(adv20) > 0, "the test of the 20th byte of an entry and the advance by 20 were not found") {
+			return
+		}
+		o.At(fn.Site(start.Cond.Expr, "20th byte tested"))
+		env := &core.ByteEnv{Info: info, Tables: map[types.Object][]int64{}, Prog: c.Prog}
+		env.Alias = is19
+		env.Var = types.NewVar(token.NoPos, fn.Pkg.Types, "last", types.Typ[types.Uint8])
+		isAdv20 := func(v *core.V) bool {
+			for _, a := range adv20 {
+				if a == v {
+					return true
+				}
+			}
+			return false
+		}
+		stop := func(v *core.V) bool {
+			for _, a := range adv19 {
+				if a == v {
+					return true
+				}
+			}
+			return false
+		}
+		full := env.ReachSet(g, []*core.V{start}, isAdv20, stop)
+		o.Count(256)
+		o.Fact("the entry is 20 bytes long for last bytes %s", full.String())
+		for _, b := range []byte{'\n', '\r'} {
+			if !full[b] {
+				o.Fail("an entry whose 20th byte is %#02x is not taken as a full 20-byte entry (SP CR, SP LF and CR LF are the line endings of ISO 32000-2 7.5.4): the next entry is read one byte early", b)
+			}
 		}
 	})
 }
